@@ -111,6 +111,17 @@ pub fn scaled_entries(cfg: &CfgD, tier: Tier) -> Vec<(String, EntryD)> {
         e.ops.push(OpD::Value(format!("S{}", n - 1), ValD::Str(s("again"))));
         out.push((format!("{n}-strings+duplicate-of-last"), e));
     }
+    // timestamps with a sub-millisecond part, just below and at a millisecond / second boundary,
+    // of present-day and of small magnitude (whole epoch milliseconds: the floor)
+    for ns in [1_749_475_336_015_999_950i128, 1_749_475_336_015_999_999, 1_749_475_336_016_000_000, 1_749_475_336_999_999_999, 999_999, 1_000_000, 1_999_999, 4_102_444_800_123_999_999] {
+        let mut e = build_entry(cfg, frame_minimal(), vec![(s("M"), m(1, vec![]))]);
+        for op in &mut e.ops {
+            if let OpD::Timestamp(t) = op {
+                *t = ns;
+            }
+        }
+        out.push((format!("timestamp-{ns}-ns"), e));
+    }
     // long names and long values (a name is valid whatever its length)
     let lens: &[usize] = match tier {
         Tier::Quick => &[1024, 1025, 4096],
